@@ -1,7 +1,7 @@
 (* C03 -- Verilog write -> read round trip.  Statements only; proofs in Proofs/VerilogProofs.v. *)
 From CG Require Import Verilog.ExprParse.
 From stdpp Require Import strings gmap sets.
-From CG Require Import Types Sem Cases Model.Lint Api Verilog.Ast Verilog.Read Verilog.Write Proofs.VerilogProofs Proofs.VerilogReadProofs Proofs.VerilogRtProofs Proofs.VerilogEqProofs.
+From CG Require Import Types Sem Cases Model.Lint Api Verilog.Ast Verilog.Read Verilog.Write Proofs.VerilogProofs Proofs.VerilogReadProofs Proofs.VerilogRtProofs Proofs.VerilogEqProofs Proofs.VerilogRtBbProofs.
 Open Scope string_scope.
 
 (* well-formed circuits of the property: lint-clean (blackbox pins may be open), names usable as identifier tokens,
@@ -17,8 +17,26 @@ Definition bbdefs_of (C : Circuit) : list bbdef := (map_to_list (c_bbs C)).*2.
 Definition no_consts (g : circuit) : Prop := of_type g (λ t, bool_decide (t ∈ const_types)) = ∅.
 Definition no_pins (g : circuit) : Prop := of_type g (λ t, is_ty BbIn t || is_ty BbOut t) = ∅.
 
-(* full statements (validated per generated circuit by Run_C03.holds; proved below: roundtrip_identical for circuits without
-   blackboxes; open: circuits with blackbox instances, and roundtrip_equiv) *)
+(* what a circuit with blackbox instances must satisfy beyond lint for the text to be readable at all (none of these is implied by
+   lint; the construction API guarantees the first and third, the others are naming rules of the netlist):
+   every pin-typed node is a pin of a registered instance; other nodes have dot-free names (lint only demands an instance prefix
+   for a dotted name: a gate called ff0.x next to instance ff0 is lint-clean, its net would be read as a hierarchical name);
+   nothing reads a blackbox input pin; pins of different instances are different nodes (instance u with pin a.b / instance u.a with
+   pin b); instance names do not start with a digit and no blackbox type is called like a primitive gate (and, or, ...) *)
+Definition wf_bb (C : Circuit) : Prop :=
+  (∀ n i, c_g C !! n = Some i → n_ty i = BbIn ∨ n_ty i = BbOut → ∃ inst d p, c_bbs C !! inst = Some d ∧ n = pin inst p ∧ p ∈ bb_in d ∪ bb_out d) ∧
+  (∀ n i, c_g C !! n = Some i → n_ty i ≠ BbIn → n_ty i ≠ BbOut → has_dot n = false) ∧
+  (∀ n i m j, c_g C !! n = Some i → n_ty i = BbIn → c_g C !! m = Some j → n ∉ n_fi j) ∧
+  (∀ i j d e p q, c_bbs C !! i = Some d → c_bbs C !! j = Some e → p ∈ bb_in d ∪ bb_out d → q ∈ bb_in e ∪ bb_out e → pin i p = pin j q → i = j) ∧
+  (∀ inst d, c_bbs C !! inst = Some d → starts_digit inst = false ∧ prim_of_name (bb_name d) = None).
+
+(* full statements (validated per generated circuit by Run_C03.holds).  Proved below: roundtrip_identical for all circuits that also
+   satisfy wf_bb (C03_roundtrip_identical_bb: blackbox instances with connected and unconnected pins, escaped instance names), both
+   statements for circuits without blackboxes.  Not theorems as they stand: wf_rt alone admits the circuits excluded by wf_bb (e.g. a
+   gate called ff0.x, a blackbox type called "and"), whose text the reader rejects or reads differently.
+   Open: roundtrip_equiv for circuits with blackbox instances (pins: C02_read_bb_pins gives them for the read-back circuit; missing is
+   sat_module of the written module = consistent valuations of the original with the blackbox-driven buffers as unconstrained nets,
+   and the in_subset guards of the written blackbox statements), and several x constants. *)
 Definition roundtrip_equiv_full : Prop := ∀ C b π m rsv,
   wf_rt C → write C b π = Ok m → list_to_set (module_ids m) ⊆ rsv →
   ∃ C', read rsv (bbdefs_of C) m = Ok C' ∧
@@ -116,6 +134,28 @@ Proof.
 Qed.
 Print Assumptions C03_roundtrip_equiv_bbfree_nodes.
 
+(* roundtrip_identical for circuits WITH blackbox instances: connected and unconnected input and output pins, several instances of
+   one type, escaped instance names (the AST holds the name), nets shared between instances, a flop output fed back into the logic.
+   For every order choice π (ports, registry order, pin order of every instance, node and operand order) and every reserved set that
+   contains the identifiers of the text, reading the primitive-style text back succeeds and returns the very same circuit: same nodes
+   (pins included), types, edges, output marks, name and registry.  Proof (Proofs/VerilogRtBbProofs.v): the item list is inputs,
+   outputs, wires, one named-connection statement per instance (.p(net) / .p(), write_inv_bb), one primitive per gate that is not the
+   detached buffer of an output pin; the reader compiles the statement to the dictionary of the connected pins (c_conns_bb);
+   add_blackbox succeeds (bb_instance_succ of C02: every add / connect check passes) and makes exactly the pins, placeholders and
+   output buffers of the statement (bb_instance_shape, bb_instance_dom, bb_instance_reg); fold invariant Jb / Kb = invariant J of the
+   blackbox-free proof extended by the pins made so far, the buffers they drive (final at once: they get no statement) and the
+   registry; the gate statements never touch a pin (their operands are no pins); module(); map_eq on graph and registry.
+   This is roundtrip_identical_full with the additional hypothesis wf_bb. *)
+Theorem C03_roundtrip_identical_bb : ∀ C π m rsv,
+  wf_rt C → wf_bb C → no_consts (c_g C) → write C false π = Ok m → list_to_set (module_ids m) ⊆ rsv →
+  read rsv (bbdefs_of C) m = Ok C.
+Proof.
+  intros C π m rsv (Hl & Hg & Hn & Hd & Hcl) (B1 & B2 & B3 & B4 & B5) Hc Hw Hids.
+  exact (roundtrip_identical_bb C π m rsv _ (lint_clean_rtb C rt_flags Hl Hg Hn Hd Hcl Hc B1 B2 B3 B4 B5)
+           (λ inst d, find_def_registry (c_bbs C) inst d Hd) Hw Hids).
+Qed.
+Print Assumptions C03_roundtrip_identical_bb.
+
 (* non-vacuity: a circuit with a blackbox, a constant and an escaped name satisfies wf_rt, is written and read back *)
 Definition ex_C : Circuit := Cases.mk "top"
   [("a", Input, false, []); ("\b[0]", Input, true, []); ("k", C1, false, []);
@@ -164,3 +204,35 @@ Example C03_ex_equiv_hyps :
   bool_decide (map_Forall (λ n (_ : ninfo), n ≠ "" ∧ starts_digit n = false) (c_g ex_C3)) = true ∧
   match write ex_C3 true ex_ord3 with Ok m => match read (list_to_set (module_ids m)) [] m with Ok _ => true | _ => false end | _ => false end = true.
 Proof. vm_compute. done. Qed.
+
+(* non-vacuity of C03_roundtrip_identical_bb: every hypothesis holds for a circuit with two flop instances of one type (one with an
+   escaped instance name), connected and unconnected input and output pins, a flop output fed back into the logic and a net shared
+   by two instances; the orders differ from the declaration order; the conclusion is also evaluated *)
+Definition ex_C4 : Circuit := Cases.mk "top4"
+  [("a", Input, false, []); ("clk", Input, true, []); ("g", Nand, true, ["a"; "q"]);
+   ("ff0.d", BbIn, false, ["g"]); ("ff0.clk", BbIn, false, ["clk"]); ("ff0.en", BbIn, false, []);
+   ("ff0.q", BbOut, false, []); ("ff0.qn", BbOut, false, []); ("q", Buf, false, ["ff0.q"]);
+   ("\u[1].d", BbIn, false, ["q"]); ("\u[1].clk", BbIn, false, ["clk"]); ("\u[1].en", BbIn, false, ["a"]);
+   ("\u[1].q", BbOut, false, []); ("\u[1].qn", BbOut, false, []); ("q2", Buf, true, ["\u[1].qn"]); ("n1", Not, true, ["q2"])]
+  [("ff0", Cases.mk_bb "dff" ["d"; "clk"; "en"] ["q"; "qn"]); ("\u[1]", Cases.mk_bb "dff" ["d"; "clk"; "en"] ["q"; "qn"])].
+Definition ex_ord4 : worder :=
+  {| o_ins := ["clk"; "a"]; o_outs := ["n1"; "clk"; "q2"; "g"];
+     o_bbs := [("\u[1]", ["en"; "d"; "clk"], ["qn"; "q"]); ("ff0", ["clk"; "en"; "d"], ["q"; "qn"])];
+     o_nodes := ["n1"; "q"; "g"; "q2"]; o_fi := [("n1", ["q2"]); ("q", []); ("g", ["q"; "a"]); ("q2", [])] |}.
+Example C03_ex_identical_bb_hyps : wf_rt ex_C4 ∧ wf_bb ex_C4 ∧ no_consts (c_g ex_C4) ∧
+  match write ex_C4 false ex_ord4 with
+  | Ok m => bool_decide (read (list_to_set (module_ids m)) (bbdefs_of ex_C4) m = Ok ex_C4) && bool_decide (length (m_items m) = 14)
+  | _ => false end = true.
+Proof.
+  split; [|split; [|split]].
+  - split; [vm_compute; reflexivity|]. split; [|split; [|split]].
+    + change (map_Forall (λ n i, n_ty i ∈ gate_types → n_fi i ≠ ∅) (c_g ex_C4)). apply (bool_decide_unpack _). vm_compute. exact I.
+    + change (set_Forall (λ n, n ≠ "" ∧ starts_digit n = false) (dom (c_g ex_C4))). apply (bool_decide_unpack _). vm_compute. exact I.
+    + intros i j d e Hd He. revert j e He. revert i d Hd.
+      change (map_Forall (λ (i : string) d, map_Forall (λ (j : string) e, bb_name d = bb_name e → d = e) (c_bbs ex_C4)) (c_bbs ex_C4)).
+      apply (bool_decide_unpack _). vm_compute. exact I.
+    + apply closedb_spec. vm_compute. reflexivity.
+  - apply (wf_bb_dec_sound (c_g ex_C4) (c_bbs ex_C4)). apply (bool_decide_unpack _). vm_compute. exact I.
+  - apply (bool_decide_unpack _). vm_compute. exact I.
+  - vm_compute. reflexivity.
+Qed.
